@@ -153,6 +153,15 @@ CLAIMS = {
             "ValueError or an optimal answer.",
             "Weighted optimum taken over assignments whose weight-normalised sums are non-decreasing in bin index (documented ordering of the sums handed to additional_constraints); CBC inconsistencies told apart by re-solving with preprocessing off.",
             "DESIGN.md 6/C17"),
+    "C18": ("exploration", "metamorphic property-based testing (permutation, scaling, zero padding) + differential testing of exact algorithms against each other beyond the oracle's size",
+            "Pairs (input, transformed input): a generated permutation must leave the sorted sum vector of the sorting heuristics and the optimal "
+            "value of the exact algorithms unchanged; scaling values and bin size by 2, 3, 7, 10, 2^10 must scale the heuristics' sums (incl. "
+            "first fit and best fit) and the exact optimal values by the same factor (multifit: powers of two); inserting 1-3 zero-valued items "
+            "must leave every exact optimum unchanged. Agreement: on 11-13 (thorough 11-16) items and 2-5 bins every exact algorithm that "
+            "finishes within a kill-timeout in a forked child must report the same optimal difference (cg, dp, ilp also min-max and max-min) "
+            "and greedy, kk and multifit may not beat them; value profiles include near-equal large values.",
+            "Exact algorithms compared on the optimal value only; agreement can show a violation but cannot certify optimality; timeouts are inconclusive.",
+            "DESIGN.md 6/C18"),
     "C19": ("exploration", "property-based testing with an exception oracle (negative testing with a positive control)",
             "Valid packing inputs with 1-3 oversize items inserted at generated positions for all five packers x five input "
             "formats x all ten output types must raise ValueError; cbldm with exactly one invalid argument (bin count, "
